@@ -146,6 +146,58 @@ theorem C16_sharded_sliced_make {P : Pipeline X S Rv} (hWF : P.WF) (bs : List Ba
 
 end Sliced
 
+/-! ## non-vacuity of the hypotheses (`Lawful` + insensitive to the order of the rows) -/
+
+/-- the numeric sufficient statistics agree (the list-valued components `vals` / `bag`, which DO depend on the
+order of the rows, are ignored) -/
+def numEqv (s t : Stat) : Prop :=
+  s.rows = t.rows ∧ s.n0 = t.n0 ∧ s.s0 = t.s0 ∧ s.q0 = t.q0 ∧ s.n1 = t.n1 ∧ s.s1 = t.s1 ∧ s.dot = t.dot
+
+/-- every `Stat` aggregate whose reported value reads the numeric statistics only (mean, mean+variance,
+sum/count, dot, precision/recall) is lawful for `numEqv` … -/
+theorem C16_numEqv_lawful {R : Type} (view : Stat → List R) (hview : ∀ s t, numEqv s t → view s = view t) :
+    Lawful (statM view) numEqv where
+  refl _ := ⟨rfl, rfl, rfl, rfl, rfl, rfl, rfl⟩
+  symm h := by unfold numEqv at *; omega
+  trans h1 h2 := by unfold numEqv at *; omega
+  merge_congr h1 h2 := by
+    unfold numEqv at *
+    simp only [statM, Stat.add]
+    omega
+  result_congr h := hview _ _ h
+  empty_eq := ⟨rfl, rfl, rfl, rfl, rfl, rfl, rfl⟩
+  hom xs ys := by
+    show numEqv ((Stat.ofBatch xs).add (Stat.ofBatch ys)) (Stat.ofBatch (xs ++ ys))
+    rw [Stat.ofBatch_append]
+    exact ⟨rfl, rfl, rfl, rfl, rfl, rfl, rfl⟩
+
+/-- … and its one-batch state does not depend on the order of the rows -/
+theorem C16_numEqv_perm {xs ys : List (List Val)} (h : xs.Perm ys) : numEqv (Stat.ofBatch xs) (Stat.ofBatch ys) := by
+  induction h with
+  | nil => exact ⟨rfl, rfl, rfl, rfl, rfl, rfl, rfl⟩
+  | cons x _ ih =>
+    unfold numEqv at *
+    simp only [Stat.ofBatch, Stat.add]
+    omega
+  | swap x y l =>
+    unfold numEqv
+    simp only [Stat.ofBatch, Stat.add]
+    omega
+  | trans _ _ ih1 ih2 => unfold numEqv at *; omega
+
+/-- the hypotheses of `C16_sharded_sliced` hold for C02's example pipeline (two aggregates, three slicers) -/
+example : exPipeline.WF ∧ (∀ a ∈ exPipeline.aggs, Lawful a.m numEqv) ∧
+    (∀ a ∈ exPipeline.aggs, ∀ xs ys : List (List Val), xs.Perm ys → numEqv (a.m.ofBatch xs) (a.m.ofBatch ys)) := by
+  refine ⟨exPipeline_WF, ?_, ?_⟩
+  · intro a ha
+    simp only [exPipeline, List.mem_cons, List.not_mem_nil, or_false] at ha
+    rcases ha with rfl | rfl
+    · exact C16_numEqv_lawful _ (fun s t h => by unfold numEqv at h; show List.cons _ _ = List.cons _ _; rw [h.2.1, h.2.2.1])
+    · exact C16_numEqv_lawful _ (fun s t h => by unfold numEqv at h; show List.cons _ _ = List.cons _ _; rw [h.2.1, h.2.2.1])
+  · intro a ha xs ys h
+    simp only [exPipeline, List.mem_cons, List.not_mem_nil, or_false] at ha
+    rcases ha with rfl | rfl <;> exact C16_numEqv_perm h
+
 /-! ## tests of the definitions (`decide`d) -/
 
 /-- C02's example pipeline, three shards `[b0] [b1] [b2]` (slice `a = 2` only in the LAST shard, the middle
